@@ -26,6 +26,13 @@ pub struct C15Model {
     /// what the last op did, for the oracle
     last: Option<Value>,
     thorough: bool,
+    /// the TA private key, for re-initialising the signer
+    ta_pem: String,
+    /// how often the signer was re-initialised; responses remember the
+    /// epoch in which they were signed
+    epoch: u32,
+    response_epoch: Vec<u32>,
+    reinits_left: u32,
 }
 
 fn proxy_json(w: &World) -> Value {
@@ -170,6 +177,9 @@ impl Model for C15Model {
             }
         }
         v.push(Op::RollInit { ca: "c1".into() });
+        if self.reinits_left > 0 {
+            v.push(Op::TaReinit);
+        }
         v
     }
 
@@ -192,14 +202,25 @@ impl Model for C15Model {
                 Some(req) => match w.krill.ca_manager().verif_ta_signer_process_request(req, &w.krill) {
                     Ok(resp) => {
                         self.responses.push(resp);
+                        self.response_epoch.push(self.epoch);
                         if self.responses.len() > 2 {
                             self.responses.remove(0);
+                            self.response_epoch.remove(0);
                         }
                         OpOutcome { ok: true, err: None, tasks: vec![], fatal: None }
                     }
                     Err(e) => OpOutcome { ok: false, err: Some(e.to_string()), tasks: vec![], fatal: None },
                 },
             },
+            Op::TaReinit => {
+                let tb = w.config.testbed().unwrap().clone();
+                let r = w.krill.ca_manager().verif_ta_signer_reinit(vec![tb.ta_uri().clone()], tb.ta_aia().clone(), self.ta_pem.clone(), &w.actor, &w.krill);
+                if r.is_ok() {
+                    self.epoch += 1;
+                    self.reinits_left = self.reinits_left.saturating_sub(1);
+                }
+                OpOutcome::from_res(r)
+            }
             Op::TaDeliver { slot, tamper } => match self.tamper_response(*slot, *tamper) {
                 None => OpOutcome { ok: false, err: Some("no such pooled response".into()), tasks: vec![], fatal: None },
                 Some(resp) => {
@@ -258,11 +279,12 @@ impl Model for C15Model {
             Op::TaDeliver { slot, tamper } => {
                 let n = self.responses.len();
                 let resp_nonce = if *slot < n { nonce_of_resp(&self.responses[n - 1 - slot]) } else { String::new() };
-                let expect = *tamper == 0 && self.open.as_deref() == Some(resp_nonce.as_str());
+                let from_current_signer = if *slot < n { self.response_epoch[n - 1 - slot] == self.epoch } else { false };
+                let expect = *tamper == 0 && self.open.as_deref() == Some(resp_nonce.as_str()) && from_current_signer;
                 if out.ok && !expect {
                     v.push((
                         "proxy-accepted-unfit-response".into(),
-                        format!("the proxy accepted pooled response {slot} (variant {tamper}, nonce {}) while the open request is {:?}", if Some(resp_nonce.as_str()) == self.open.as_deref() { "matches" } else { "differs" }, self.open.is_some()),
+                        format!("the proxy accepted pooled response {slot} (variant {tamper}, nonce {}, signed by the {} signer) while the open request is {:?}", if Some(resp_nonce.as_str()) == self.open.as_deref() { "matches" } else { "differs" }, if from_current_signer { "current" } else { "retired" }, self.open.is_some()),
                     ));
                 }
                 if !out.ok && expect {
@@ -284,6 +306,13 @@ impl Model for C15Model {
         // numbers only go up, in the proxy's copy, the signer and the repository
         match numbers(w) {
             Ok((pn, sn, rn, hash)) => {
+                // (a re-initialised signer is told by the operator where to
+                // continue; the hook does not override the number, so the
+                // numbers are not compared across a re-initialisation)
+                if matches!(op, Op::TaReinit) {
+                    self.last_numbers = None;
+                    self.last_mft_hash = None;
+                }
                 if let Some((lp, ls, lr)) = self.last_numbers {
                     if pn < lp || sn < ls || rn < lr {
                         v.push(("number-decreased".into(), format!("TA manifest number went proxy {lp}->{pn}, signer {ls}->{sn}, repository {lr}->{rn}")));
@@ -356,14 +385,24 @@ impl Model for C15Model {
             "responses": self.responses.iter().map(|r| Some(nonce_of_resp(r)) == self.open).collect::<Vec<_>>(),
             "resp_req": self.responses.iter().map(|r| self.requests.iter().position(|q| nonce_of_req(q) == nonce_of_resp(r))).collect::<Vec<_>>(),
             "open": self.open.is_some(),
+            "resp_current": self.response_epoch.iter().map(|e| *e == self.epoch).collect::<Vec<_>>(),
+            "reinits_left": self.reinits_left,
         });
         let text = format!("{c}{pool}");
         crate::fingerprint::h128(text.as_bytes())
     }
 }
 
+fn ta_pem() -> String {
+    // a fixed key from the end of the pool (never handed out otherwise)
+    crate::keys::nth_persistent(127).expect("key pool")
+}
+
 fn build() -> Result<World, String> {
-    let w = World::new(WorldCfg::default()).map_err(|e| e.to_string())?;
+    *crate::world::TA_KEY_PEM.lock().unwrap() = Some(ta_pem());
+    let w = World::new(WorldCfg::default()).map_err(|e| e.to_string());
+    *crate::world::TA_KEY_PEM.lock().unwrap() = None;
+    let w = w?;
     for (c, r) in [("c1", res("AS65000-AS65010", "10.0.0.0/8", "")), ("c2", res("AS65100", "192.168.0.0/16", "2001:db8::/32"))] {
         w.add_ca(c).map_err(|e| e.to_string())?;
         w.add_child_link("ta", c, r).map_err(|e| e.to_string())?;
@@ -373,13 +412,13 @@ fn build() -> Result<World, String> {
 }
 
 pub fn run(tier: &Tier, args: &[String]) -> i32 {
-    let depth = crate::report::arg_value(args, "--depth").and_then(|d| d.parse().ok()).unwrap_or(if tier.thorough { 11 } else { 8 });
+    let depth = crate::report::arg_value(args, "--depth").and_then(|d| d.parse().ok()).unwrap_or(if tier.thorough { 10 } else { 7 });
     let cap = crate::report::arg_value(args, "--cap").and_then(|d| d.parse().ok()).unwrap_or(if tier.thorough { 1800 } else { 50 });
     let mut out = crate::report::Outcome::new("C15", tier, "model_checking");
     out.assumptions = vec![
         "the harness carries the messages between the embedded proxy and signer (hook H7 lets the signer process a request on its own); the scheduler is not run, so the exchange never happens by itself".into(),
         "pool: the two most recent requests and responses; alterations: clear text changed (child entries dropped, nonce rewritten to the open one, revision number lowered), signed part swapped with that of the other pooled message or with a message signed by the other party's key (cross-wiring)".into(),
-        "signer re-initialisation is not in the alphabet (the embedded signer cannot be re-initialised through the public API)".into(),
+        "signer re-initialisation (hook H7: the signer aggregate is dropped and initialised again with the same TA key, hence a new identity key, and the proxy is updated) happens at most once per path; manifest numbers are not compared across it".into(),
         "nonces are random (uuid); they are compared only for equality".into(),
     ];
     e1run::run(
@@ -388,7 +427,7 @@ pub fn run(tier: &Tier, args: &[String]) -> i32 {
             configs: vec![Config {
                 name: "ta-two-children".into(),
                 build: Box::new(build),
-                model: C15Model { thorough: tier.thorough, ..Default::default() },
+                model: C15Model { thorough: tier.thorough, ta_pem: ta_pem(), reinits_left: 1, ..Default::default() },
             }],
             depth,
             wall_cap_s: cap,
